@@ -334,7 +334,9 @@ fn check_dict_getters(c: &DictKeys, rec: &mut Rec) -> Verdict {
             return Verdict::fail("C19:dict:id", "id()");
         }
         match (c.dict.get("id"), d.safe_id()) {
-            (Some(RVal::Ref(i, _)), r) if &r.value != i => return Verdict::fail("C19:dict:safe_id", "safe_id()"),
+            (Some(RVal::Ref(i, dis)), r) if &r.value != i || &r.dis != dis => {
+                return Verdict::fail("C19:dict:safe_id", format!("safe_id() returns @{} {:?}, the stored id is @{i} {dis:?}", r.value, r.dis))
+            }
             (other, r) if !matches!(other, Some(RVal::Ref(..))) && r.value != Ref::default().value => {
                 return Verdict::fail("C19:dict:safe_id-default", "safe_id() default")
             }
@@ -441,7 +443,7 @@ fn check_grid_from_rows(c: &Rows, rec: &mut Rec) -> Verdict {
 }
 
 pub fn run(ctx: &mut Ctx) {
-    ctx.rule("exhaustive: 18 kinds x 256 u8 codes x kind names (+ near-miss names): code/name/Display/try_from form a bijection on exactly 18; generated: any constructible value: exactly one of 18 is_* predicates, HaystackKind::from agrees, each TryFrom<&Value> succeeds iff the kind matches and returns the stored payload; dicts with present/absent/wrong-kind keys through every HaystackDict getter; lists of records through Grid::make_from_dicts(_with_meta): rows kept in order, columns = sorted distinct union of keys; non-trivial: value not Null / dict with >= 2 tags / >= 2 rows with different key sets; distinct by Debug");
+    ctx.rule("exhaustive: 18 kinds x 256 u8 codes x kind names (+ near-miss names): code/name/Display/try_from form a bijection on exactly 18; generated: any constructible value: exactly one of 18 is_* predicates, HaystackKind::from agrees, each TryFrom<&Value> succeeds iff the kind matches and returns the stored payload; dicts with present/absent/wrong-kind keys through every HaystackDict getter; lists of records through Grid::make_from_dicts(_with_meta): rows kept in order, columns = sorted distinct union of keys (record sets of up to ~90 distinct tag names included); non-trivial: value not Null / dict with >= 2 tags / >= 2 rows with different key sets; distinct by Debug");
     enumerate_kinds(ctx);
     let depth = ctx.tier.pick(2, 3) as u32;
     let total = ctx.tier.pick(160_000, 3_200_000);
@@ -466,8 +468,32 @@ pub fn run(ctx: &mut Ctx) {
         total2,
         &|| {
             let cfg = GenCfg::any(1);
+            // wide record sets: many rows sharing and not sharing tags from a pool of 20-90 names (unions of 30+, 60+ columns)
+            let wide = (20usize..90, prop::collection::vec(prop::collection::vec((any::<u16>(), 0u8..4), 1..50), 1..6)).prop_map(|(pool, rows)| {
+                rows.into_iter()
+                    .map(|tags| {
+                        tags.into_iter()
+                            .map(|(t, v)| {
+                                let name = format!("t{}", crate::runner::idx(t, pool));
+                                let val = match v {
+                                    0 => RVal::Marker,
+                                    1 => RVal::num(t as f64),
+                                    2 => RVal::Str(name.clone()),
+                                    _ => RVal::Null,
+                                };
+                                (name, val)
+                            })
+                            .collect::<RDict>()
+                    })
+                    .collect::<Vec<RDict>>()
+            });
             bx((
-                prop::collection::vec(dict_of(cfg, value(cfg), 5), 0..=6),
+                prop_oneof![
+                    12 => prop::collection::vec(dict_of(cfg, value(cfg), 5), 0..=6),
+                    1 => wide.clone(),
+                    // the same wide rows twice over (every name is met again after all names were seen once)
+                    1 => wide.prop_map(|r| r.iter().chain(r.iter()).cloned().collect::<Vec<RDict>>()),
+                ],
                 prop_oneof![Just(None), dict_of(cfg, value(cfg), 3).prop_map(Some)],
             )
                 .prop_map(|(rows, meta)| Rows { rows, meta }))
